@@ -8,7 +8,10 @@ VERIF = os.path.dirname(os.path.dirname(os.path.abspath(__file__)))
 
 COMMON_NOTE = ("Trusted: CPython's ast (the parsed tree is what runs), sa.index class/callee resolution, the oracles "
                "written in DESIGN.md. Nothing of bridge_env is imported or executed. Unrecognised code shapes are "
-               "reported as ANALYSIS-ERROR (exit 2), never as a pass.")
+               "reported as ANALYSIS-ERROR (exit 2), never as a pass. The analyser's model of Python (sa.fold) is itself tested against "
+               "CPython on a corpus of 1024 small programs (sa.foldtest, thorough tier: 0 disagreements; a disagreement is exit 2). Every check also "
+               "evaluates the hygiene rules (.M: memoisation, shared class / module state, identity comparison of values, one-shot iterators, and "
+               "M10: a class with its own copy protocol must give copy.deepcopy an independent object).")
 
 BIDFOLD = """static analysis: explicit-state exploration of the auction engine's source under the analyser's partial evaluator (numpy vector on a 1-d array model) against an oracle of the Laws; """
 PATHS = 'static analysis: path-sensitive effect summary (all syntactic paths, helpers inlined, reaching-definition substitution) + guards evaluated as truth tables over abstract valuations; enum helper tables by constant folding'
@@ -88,7 +91,7 @@ CLAIMS['C16'] = dict(
          'with a constant the interval straddles splits the interval there and the parts are folded again, an operation that needs the exact value '
          'is an analysis error - so the partition refines itself to the constants the code distinguishes whatever its shape (loop, bisect, ifs); '
          'on each resulting interval (50, covering every integer) the result is one integer equal to the official scale at both ends (range, '
-         'monotone, odd follow).  score_to_imp is decided the same way for every integer score against a grid of scores in both positions.',
+         'monotone, odd follow).  score_to_imp is decided the same way for every integer score against a grid of scores (on and off the 10-point grid) in both positions.',
     ref='4/C16')
 
 CLAIMS['C12'] = dict(
@@ -115,7 +118,7 @@ CLAIMS['C14'] = dict(
     technique='static analysis: encoders/decoders folded inside the analyser on a covering family of deal shapes x first seats against canonical-form oracles; numpy pair folded on a 1-d array model; slice tiling under three permutations',
     text='PARTIAL. Decided on the covering family (balanced, a void in each suit position, double voids, 13-card suits, freaks, high/low swapped, '
          'partial deals) x 4 first seats: PBN text canonical and read back, 52-slot vectors, JSON lists ascending under N/E/S/W; to_np_binary / convert_np_binary folded on a model of '
-         'numpy\'s 1-d arrays for three dtypes (indicator vectors, read back, and reader on checker-built vectors); dealer slices tile the pack under any permutation. NOT decided: equality for each '
+         'numpy\'s 1-d arrays for four dtypes incl. bool (indicator vectors, read back, and reader on checker-built vectors); dealer slices tile the pack under any permutation; (R5) the streaming JSON writer the card lists go through leaves one parseable document after a record that cannot be serialised. NOT decided: equality for each '
          'of the 5.4e28 individual deals (runtime value).',
     ref='4/C14')
 CLAIMS['C17'] = dict(
@@ -124,9 +127,9 @@ CLAIMS['C17'] = dict(
          'yield guarded by non-emptiness (blank-line runs, leading/trailing blank lines), separator pattern fullmatches LF/CRLF/whitespace-only '
          'and no content line, buffers reset unconditionally, %-lines consumed before extraction; parse_board maps each tag to its first value '
          'verbatim for all orders of the 4 tags x extra tags/table rows x LF/CRLF x values over the alphabet incl. runs of spaces; the four tags '
-         'go through Hands.convert_pbn / Player[] / Vul.str_to_vul. Whole-file rules: R6 folds the complete reader on 13 layouts x 2 configurations '
-         '(LF/CRLF, blank-line runs, header lines, extra tags, reversed tag order, table sections with indented rows, repeated tags, 255-character '
-         'lines, spellings, repeated board numbers); R7 folds JsonBoardSettingWriter -> JsonParser on lists of 0..4 boards. Not decided: PBN commentary.',
+         'go through Hands.convert_pbn / Player[] / Vul.str_to_vul. Whole-file rules: R6 folds the complete reader on 18 layouts x 2 configurations '
+         '(LF/CRLF, blank-line runs, header lines, extra tags, reversed tag order, table sections with indented rows, repeated tags, lines of 254 / 255 / 256 / 510 visible '
+         'characters under LF and CRLF, spellings, repeated board numbers); R7 folds JsonBoardSettingWriter -> JsonParser on lists of 0..4 boards. Not decided: PBN commentary.',
     ref='4/C17')
 CLAIMS['C18'] = dict(
     technique='static analysis: path summary of write_board_result (tag order, separator, value provenance), sibling agreement with the reader separator pattern, write_line folded on every length class, who-may-write the stream, writer lines folded through parse_board',
